@@ -60,3 +60,37 @@ pub fn c10_handlers() {
         match r2 { Response::Value { key: _, value, version: _ } => vsym::check("probe.get-value", value == "p1"), _ => vsym::check("probe.get-answered", false) }
     }
 }
+
+/// layer 3: concrete hostile samples that the symbolic layers cannot spell (very long tokens, multi-byte UTF-8 around buffer-size
+/// boundaries, control characters); each through process_request from a fresh and from a database-token session, followed by the probe
+pub fn c10_samples() {
+    let n = mk_primary();
+    mk_db(&n.dbs, "d", "none");
+    let (mut probe, mut prx) = db_client(&n.dbs, "d");
+    let sess = vsym::choice("session", 2);
+    let (mut c, mut rx) = new_client();
+    if sess == 1 { process_request("use-db d tok", &n.dbs, &mut c); }
+    let k = vsym::choice("sample", 14);
+    vsym::tag_i("sample", k as i64);
+    let line: String = match k {
+        0 => ["set doc ", &"a".repeat(5000)].concat(),
+        1 => ["set doc ", &"\u{65e5}".repeat(600)].concat(),                 // 3-byte characters across the 1024 / 250 / 4096 byte marks
+        2 => ["set d", &"\u{e9}".repeat(511), " v"].concat(),                // 2-byte characters, odd offset
+        3 => ["get ", &"k".repeat(1021), "\u{1f600}"].concat(),              // 4-byte character straddling byte 1024
+        4 => "set\tk\tv".to_string(),
+        5 => "set k v\r\n".to_string(),
+        6 => "set k \u{0}\u{1}".to_string(),
+        7 => ";".repeat(300),
+        8 => " ".repeat(300),
+        9 => ["keys ", &"*".repeat(2000)].concat(),
+        10 => ["increment k ", &"9".repeat(400)].concat(),
+        11 => ["set-safe k ", &"9".repeat(400), " v"].concat(),
+        12 => ["use-db ", &"\u{65e5}".repeat(400), " tok"].concat(),
+        _ => ["auth ", &"u".repeat(1023), "\u{e9} pwd"].concat(),
+    };
+    let r = process_request(&line, &n.dbs, &mut c);
+    vsym::cover("sample.answered", true);
+    let r1 = process_request("set p p1", &n.dbs, &mut probe);
+    vsym::check("sample.probe-set-answered", is_ok(&r1));
+    match process_request("get p", &n.dbs, &mut probe) { Response::Value { key: _, value, version: _ } => vsym::check("sample.probe-get-value", value == "p1"), _ => vsym::check("sample.probe-get-answered", false) }
+}
